@@ -1,7 +1,7 @@
 ----------------------------- MODULE MC_C08 -----------------------------
 (* C08: arguments written as polynomial/rational expressions over measured registers (multi-  *)
 (* digit registers included, 1..4 distinct registers, int/float coefficients, a declared      *)
-(* variable), in positional or keyword position.  TLC checks on the listener machine that an   *)
+(* variable - an ordinary float named p0, like a tdm array -), in positional or keyword position.  TLC checks on the listener machine that an   *)
 (* argument is delivered as a register transform exactly when registers occur in it, over     *)
 (* exactly those registers, and prints script + delivered term for replay.                    *)
 EXTENDS BBDenote, Json
@@ -14,7 +14,7 @@ Bin(op, l, r) == [t |-> "bin", op |-> op, l |-> l, r |-> r]
 NoArgs == [hasargs |-> FALSE, args |-> <<>>, kw |-> <<>>]
 NoM == [name |-> ""] @@ NoArgs
 Regs == {0, 1, 2, 10, 12}
-Consts == {I(2), Fl(1, 2), Var("c")}
+Consts == {I(2), Fl(1, 2), Var("p0")}
 RECURSIVE ERegs(_)
 ERegs(e) == CASE e.t = "reg" -> {e.n} [] e.t = "bin" -> ERegs(e.l) \cup ERegs(e.r) [] e.t \in {"brk", "neg"} -> ERegs(e.a) [] OTHER -> {}
 Leaves == {Reg(n) : n \in Regs} \cup Consts
@@ -33,11 +33,11 @@ Small == {e \in E1ok : e.t = "bin" /\ e.op \in {"+", "*"} /\ Cardinality(ERegs(e
 E2 == {Bin(op, Wrap(l), Wrap(r)) : op \in {"+", "-", "*", "/"}, l \in Small, r \in {x \in E1ok : x.t = "bin" /\ x.op \in {"+", "*", "-"}} \cup {Reg(12), Fl(1, 2)}}
 E2ok == {e \in E2 : OKBin(e.op, e.l, e.r)}
 \* a representative depth-2 family for every run; the full E2ok only when Depth >= 3
-SmallL == {Bin(op, Reg(a), x) : op \in {"+", "*"}, a \in {0, 10}, x \in {Reg(1), Reg(12), I(2), Fl(1, 2), Var("c")}}
+SmallL == {Bin(op, Reg(a), x) : op \in {"+", "*"}, a \in {0, 10}, x \in {Reg(1), Reg(12), I(2), Fl(1, 2), Var("p0")}}
 RSet == {Bin("+", Reg(2), Fl(1, 2)), Bin("*", Reg(1), Reg(12)), Bin("-", Reg(2), Reg(10)), Bin("*", I(2), Reg(0)), Bin("+", Reg(1), I(2)), Reg(12), Fl(1, 2)}
 E2small == {x \in {Bin(op, Wrap(l), Wrap(r)) : op \in {"+", "-", "*", "/"}, l \in SmallL, r \in RSet} : OKBin(x.op, x.l, x.r)}
 Exprs == IF Depth >= 3 THEN E1ok \cup E2ok ELSE IF Depth = 2 THEN E1ok \cup E2small ELSE E1ok
-Pre == <<[t |-> "var", ty |-> "float", x |-> "c", e |-> Fl(3, 2)]>>
+Pre == <<[t |-> "var", ty |-> "float", x |-> "p0", e |-> Fl(3, 2)]>>
 Script(e, pos) == [name |-> "rr", version |-> "1.0", target |-> NoM, type |-> NoM, incs |-> <<>>,
                    body |-> Pre \o <<[t |-> "stmt", op |-> "MeasureX", hasargs |-> FALSE, args |-> <<>>, kw |-> <<>>, modes |-> <<I(0)>>, br |-> "none"],
                                     IF pos = "pos" THEN [t |-> "stmt", op |-> "Zgate", hasargs |-> TRUE, args |-> <<e, Fl(1, 4)>>, kw |-> <<>>, modes |-> <<I(1)>>, br |-> "none"]
